@@ -143,6 +143,9 @@ def classify_death(st):
             kind = 'ubsan:' + re.sub(r'0x[0-9a-f]+|\d+', 'N', m.group(1))[:60]
     if not kind and 'WARNING: MemorySanitizer' in err:
         kind = 'use-of-uninitialized-value'
+    if not kind and st.get('exit') == 99 and '==' in err:
+        m = re.search(r'==\d+== ([A-Z][^\n]*)', err)
+        kind = 'valgrind:' + (re.sub(r'\d+', 'N', m.group(1))[:50] if m else 'error')
     if not kind and 'Assertion' in err:
         kind = 'assert'
     if not kind and 'Parse error in default value' in err:
@@ -190,14 +193,14 @@ def wrap_case(cid, body, leak=False):
     return 'case %d\n%s\nendcase%s\n' % (cid, body.rstrip('\n'), ' leak' if leak else '')
 
 
-def run_batch(bindir, items, timeout=300, solo_timeout=60, leak=False, env_extra=None, cwd=None, binary='vdrv'):
+def run_batch(bindir, items, timeout=300, solo_timeout=60, leak=False, env_extra=None, cwd=None, binary='vdrv', wrapper=None):
     """items: list of (cid, body).  Returns dict cid -> (events, death|None).
     A case during which the driver dies is re-run alone (flushed log) and reported with its death."""
     results = {}
     pending = list(items)
     while pending:
         script = ''.join(wrap_case(cid, body, leak) for cid, body in pending)
-        events, st = run_driver(bindir, script, timeout=timeout, env_extra=env_extra, cwd=cwd, binary=binary)
+        events, st = run_driver(bindir, script, timeout=timeout, env_extra=env_extra, cwd=cwd, binary=binary, wrapper=wrapper)
         cases, inflight, partial, done = split_cases(events)
         for cid, evs in cases.items():
             results[cid] = (evs, None)
@@ -213,7 +216,7 @@ def run_batch(bindir, items, timeout=300, solo_timeout=60, leak=False, env_extra
             raise HarnessError('driver died outside any case (%s): %s' % (d['kind'], st['stderr'][-1500:]))
         idx = [i for i, (cid, _) in enumerate(pending) if cid == inflight][0]
         cid, body = pending[idx]
-        ev2, st2 = run_driver(bindir, wrap_case(cid, body, leak), timeout=solo_timeout, flush=True, env_extra=env_extra, cwd=cwd, binary=binary)
+        ev2, st2 = run_driver(bindir, wrap_case(cid, body, leak), timeout=solo_timeout, flush=True, env_extra=env_extra, cwd=cwd, binary=binary, wrapper=wrapper)
         c2, infl2, partial2, done2 = split_cases(ev2)
         if done2 and cid in c2 and not st2['timeout']:
             # did not reproduce alone: state carried over from earlier cases of the batch.
@@ -314,7 +317,7 @@ def _worker_chunk(chunk):
     opts = _W['opts']
     res = Result()
     try:
-        variant = getattr(mod, 'VARIANT', 'asan')
+        variant = opts.get('variant') or getattr(mod, 'VARIANT', 'asan')
         items = []
         bodies = {}
         for i, spec in enumerate(chunk):
@@ -327,11 +330,11 @@ def _worker_chunk(chunk):
             for it in items:
                 out.update(run_batch(bindirs[variant], [it], leak=getattr(mod, 'LEAKCHECK', False),
                                      timeout=opts.get('solo_timeout', 60), solo_timeout=opts.get('solo_timeout', 60),
-                                     cwd=opts.get('cwd'), env_extra=opts.get('env')))
+                                     cwd=opts.get('cwd'), env_extra=opts.get('env'), wrapper=opts.get('wrapper')))
         else:
             out = run_batch(bindirs[variant], items, leak=getattr(mod, 'LEAKCHECK', False),
                             timeout=opts.get('timeout', 300), solo_timeout=opts.get('solo_timeout', 60),
-                            cwd=opts.get('cwd'), env_extra=opts.get('env'))
+                            cwd=opts.get('cwd'), env_extra=opts.get('env'), wrapper=opts.get('wrapper'))
         for i, spec in enumerate(chunk):
             res.evaluations += 1
             if i not in out:
